@@ -20,7 +20,8 @@ ASSUMPTIONS = ['PyWavelets round-trip error is the yardstick for approximately-P
 STRATA = {'thorough': 'every (wavelet, mode, dim) combination: 106 x 5 x 2', 'quick': ''}
 LABEL_FLOORS = {'odd': 0.25, 'J>=2': 0.3}
 plan = c01.plan
-strategy = c01.strategy
+def strategy(unit):
+    return c01._case(unit)
 
 
 def _modules(case):
